@@ -63,10 +63,11 @@ static void pairs(Report & R, bool thorough)
             if (&A == &B) continue;
             ++npairs;
             const int rots = thorough ? 12 : 4;
-            for (int rot = 0; rot <= rots; ++rot) {
-                // the last round: the several-KiB variant of the stack (more than one buffer-full for any loader)
-                const int var = rot == rots ? 4 : 0;
-                const std::string cas = A.name + " -> " + B.name + " rot" + std::to_string(rot) + (var ? " large" : "");
+            for (int rot = 0; rot <= rots + 2; ++rot) {
+                // the last rounds: the several-KiB variant of the stack (more than one buffer-full for any loader), the
+                // 1-cell variant and the tight-storage variant (a twin must not be pickier about extents than the writer)
+                const int var = rot == rots ? 4 : rot == rots + 1 ? 2 : rot == rots + 2 ? 5 : 0;
+                const std::string cas = A.name + " -> " + B.name + " rot" + std::to_string(rot) + (var ? " var" + std::to_string(var) : "");
                 const std::string key = "portable:" + A.key + "->" + B.key;
                 std::string D = A.dump(var, -1000 - rot);
                 std::istringstream is(D);
